@@ -2,6 +2,7 @@ import BleveModel.Proto
 import BleveModel.Model.Query
 import BleveModel.Model.BoolSearcher
 import BleveModel.Model.ConjSearcher
+import BleveModel.Model.DisjSearcher
 /-! Driver for the search-semantics (C02) and searcher-contract (C08) correspondences. -/
 namespace Bleve.Drv.C02
 open Bleve.Proto Bleve.Query
@@ -182,6 +183,14 @@ def step (toks : List String) : String :=
                 | .next => Bleve.BoolSearcher.Op.next | .adv t => Bleve.BoolSearcher.Op.adv t)
               some (Bleve.ConjSearcher.runImpl (fun _ c => c)
                 (Bleve.ConjSearcher.init ((q0 :: qs).map (fun x => den x docs))) ops)
+            | .disj mn qs =>
+              -- the slice searcher (up to DisjunctionHeapTakeover = 10 clauses)
+              if qs.length ≤ 10 then
+                let ops := calls.map (fun c => match c with
+                  | .next => Bleve.BoolSearcher.Op.next | .adv t => Bleve.BoolSearcher.Op.adv t)
+                some (Bleve.DisjSearcher.runImpl (fun _ c => c)
+                  (Bleve.DisjSearcher.init (qs.map (fun x => den x docs)) mn) ops)
+              else Option.none
             | _ => Option.none
           let render := fun (l : List (Option Nat)) => joinWith "," (l.map (fun o => match o with
             | some i => toString i | none => "nil"))
